@@ -133,7 +133,8 @@ func runC01z(t *testing.T, r *engine.Run) {
 				for _, s := range c.sub {
 					held += len(s.held)
 				}
-				r.Logf("ztunnel reconnects presenting %d initial_resource_versions", held)
+				c.presentNonce = tp.Bool(1, 3, "presentNonce")
+				r.Logf("ztunnel reconnects presenting %d initial_resource_versions (old nonce presented=%v)", held, c.presentNonce)
 				w.connect(c, inst, false)
 				away = false
 			}
